@@ -49,21 +49,71 @@ def _toml_root(fn):
     return "content"
 
 
+def _in_order(fn):
+    """Assign / AugAssign / For statements of a function in execution (source) order -- by position in the statement lists, not by
+    line number (statements of an expanded helper keep the helper's line numbers)"""
+    out = []
+
+    def rec(stmts):
+        for st in stmts:
+            if isinstance(st, (ast.FunctionDef, ast.AsyncFunctionDef, ast.ClassDef)):
+                continue
+            if isinstance(st, (ast.Assign, ast.AugAssign, ast.AnnAssign, ast.For)):
+                out.append(st)
+            for fld in ("body", "orelse", "finalbody"):
+                b = getattr(st, fld, None)
+                if isinstance(b, list) and b and isinstance(b[0], ast.stmt):
+                    rec(b)
+            for hd in getattr(st, "handlers", []) or []:
+                rec(hd.body)
+    rec(fn.body)
+    return out
+
+
+def _init_handle(pkg):
+    """InitCommand.handle with the parsing helpers it may have been split into put back; self.option / self.validate are the
+    primitives the rules below speak about and stay calls"""
+    return pkg.expanded("InitCommand", "handle", keep=("option", "validate"))
+
+
+def _alias_closure(fn, name):
+    """the local `name` and every local it is a plain alias of (`name = other`, assigned once)"""
+    out = [name]
+    for _ in range(4):
+        src = [n for n in ast.walk(fn) if isinstance(n, ast.Assign) and any(isinstance(t, ast.Name) and t.id == out[-1] for t in n.targets)]
+        if len(src) == 1 and isinstance(src[0].value, ast.Name) and src[0].value.id not in out:
+            out.append(src[0].value.id)
+        else:
+            break
+    return out
+
+
 def _option_origins(h):
-    """{local: option name} for InitCommand.handle: x = self.option("o"), then every re-assignment of x from x, every local built
-    in a loop over an option local, and every local assigned from an expression over locals of one single origin."""
+    """{local: option name} for InitCommand.handle: x = self.option("o"), then every local assigned from an expression over locals
+    of one single origin, every loop variable of a loop over such an expression, and every container filled (subscript store /
+    append / extend / setdefault / update) inside such a loop."""
     org = {}
-    stmts = sorted([n for n in ast.walk(h) if isinstance(n, (ast.Assign, ast.For))], key=lambda n: n.lineno)
-    for n in stmts:
-        if isinstance(n, ast.Assign) and len(n.targets) == 1 and isinstance(n.targets[0], ast.Name):
-            t, v = n.targets[0].id, n.value
+
+    def origin(e):
+        used = {org[x.id] for x in ast.walk(e) if isinstance(x, ast.Name) and x.id in org}
+        return next(iter(used)) if len(used) == 1 else None
+    for n in _in_order(h):
+        if isinstance(n, ast.Assign) and len(n.targets) == 1 and isinstance(n.targets[0], (ast.Name, ast.Tuple)):
+            v = n.value
+            names = [n.targets[0]] if isinstance(n.targets[0], ast.Name) else [e for e in n.targets[0].elts if isinstance(e, ast.Name)]
             if isinstance(v, ast.Call) and ast.unparse(v.func) == "self.option" and v.args and isinstance(v.args[0], ast.Constant):
-                org[t] = v.args[0].value
-            elif t not in org:
-                used = {x.id for x in ast.walk(v) if isinstance(x, ast.Name) and x.id in org}
-                if len({org[u] for u in used}) == 1:
-                    org[t] = org[next(iter(used))]
-        elif isinstance(n, ast.For) and isinstance(n.iter, ast.Name) and n.iter.id in org:
+                for t in names:
+                    org[t.id] = v.args[0].value
+            else:
+                o = origin(v)
+                for t in names:
+                    if t.id not in org and o is not None:
+                        org[t.id] = o
+        elif isinstance(n, ast.For) and origin(n.iter) is not None:
+            o = origin(n.iter)
+            for x in ast.walk(n.target):
+                if isinstance(x, ast.Name) and x.id not in org:
+                    org[x.id] = o
             for x in ast.walk(n):
                 b = None
                 if isinstance(x, ast.Assign) and isinstance(x.targets[0], ast.Subscript):
@@ -73,7 +123,7 @@ def _option_origins(h):
                 while isinstance(b, ast.Subscript):
                     b = b.value
                 if isinstance(b, ast.Name) and b.id not in org and not any(isinstance(a, ast.Assign) and isinstance(a.targets[0], ast.Name) and a.targets[0].id == b.id for a in ast.walk(n)):
-                    org[b.id] = org[n.iter.id]
+                    org[b.id] = o
     return org
 
 
@@ -105,8 +155,10 @@ def _toml_paths(text):
     return out
 
 
-def _alias_paths(fn, root_names):
-    """Follow `x = y["k"]` chains.  -> (reads {path: line}, writes {path: line}, var->path)"""
+def _alias_paths(fn, root_names, derive=False):
+    """Follow `x = y["k"]` chains.  -> (reads {path: line}, writes {path: line}, var->path)
+    derive=True: a fresh local computed from locals of exactly one configuration path (a converted / copied table under a new
+    name) stands for that path too."""
     var = {n: p for n, p in root_names.items()}
     reads, writes = {}, {}
     for node in ast.walk(fn):
@@ -140,6 +192,10 @@ def _alias_paths(fn, root_names):
                 var[t.id] = p
                 reads[p] = n.lineno
             else:
+                if derive and t.id not in var:
+                    src = {var[x.id] for x in ast.walk(n.value) if isinstance(x, ast.Name) and x.id in var and var[x.id]}
+                    if len(src) == 1:
+                        var[t.id] = next(iter(src))
                 for sub in ast.walk(n.value):
                     if isinstance(sub, ast.Subscript):
                         q = path_of(sub)
@@ -353,7 +409,7 @@ def _r11(ctx, pkg):
     """files/formats (and every other list setting) are positional: item i of one list belongs to item i of the other, and a
     list may legitimately repeat a value (two files of one format).  The parser keeps every non-blank item in order."""
     ci = pkg.cls("InitCommand")
-    h = ci.methods["handle"]
+    h = _init_handle(pkg)
     org = _option_origins(h)
     n = 0
     for local, opt in sorted(org.items()):
@@ -517,7 +573,7 @@ def _kwargs_dict(fn, callee, kw):
 def _r2(ctx, pkg):
     init = pkg.cls("BaseConfiguration").methods["__init__"]
     params = [a.arg for a in init.args.args if a.arg != "self"]
-    h = pkg.method("InitCommand", "handle")
+    h = _init_handle(pkg)
     ctx.saw(INIT, "InitCommand.handle")
     calls = [c for c in ast.walk(h) if isinstance(c, ast.Call) and ast.unparse(c.func) == "BaseConfiguration"]
     if len(calls) != 1:
@@ -630,7 +686,7 @@ OPTION_SEPS = {"element-replacement": {",", ":"}, "shielding": {",", ":"}, "bind
 
 def _r4_r6_r7(ctx, pkg):
     eh = pkg.method("ExampleCommand", "handle")
-    ih = pkg.method("InitCommand", "handle")
+    ih = _init_handle(pkg)
     w = _seps_writer(eh)
     wl_of = _writer_locals(eh)
     org = _option_origins(ih)
@@ -661,16 +717,16 @@ def _r4_r6_r7(ctx, pkg):
     ctx.floor("R6", "free-text splits", n6, 1, (INIT, ih.lineno))
     # R7 fresh lists per ODE-modifier entry
     loops = [n for n in ast.walk(ih) if isinstance(n, ast.For) and isinstance(n.iter, ast.Name) and org.get(n.iter.id) == "ode-modifier"]
-    D = next((k.value.id for c in ast.walk(ih) if isinstance(c, ast.Call) for k in c.keywords if k.arg == "ode_modifier" and isinstance(k.value, ast.Name)), "ode_modifier")
+    D = _alias_closure(ih, next((k.value.id for c in ast.walk(ih) if isinstance(c, ast.Call) for k in c.keywords if k.arg == "ode_modifier" and isinstance(k.value, ast.Name)), "ode_modifier"))
     ok = False
     found = ""
     if loops:
         lp = loops[0]
         creates = []
         for n in ast.walk(lp):
-            if isinstance(n, ast.Assign) and isinstance(n.targets[0], ast.Subscript) and ast.unparse(n.targets[0].value) == D:
+            if isinstance(n, ast.Assign) and isinstance(n.targets[0], ast.Subscript) and ast.unparse(n.targets[0].value) in D:
                 creates.append(n.value)
-            if isinstance(n, ast.Call) and isinstance(n.func, ast.Attribute) and n.func.attr == "setdefault" and ast.unparse(n.func.value) == D:
+            if isinstance(n, ast.Call) and isinstance(n.func, ast.Attribute) and n.func.attr == "setdefault" and ast.unparse(n.func.value) in D:
                 creates.append(n.args[1] if len(n.args) > 1 else n)
         found = "; ".join(ast.unparse(c)[:70] for c in creates)
         ok = bool(creates) and all(isinstance(c, ast.Dict) and all(isinstance(v, ast.List) for v in c.values) for c in creates)
@@ -742,7 +798,7 @@ def _r8(ctx, pkg):
                   "previous tables and configured values silently fall back to the built-in ones",
                   expected="installation before the first Species(..)")
     # the values installed are the ones read from the file
-    _, _, var = _alias_paths(rh, {_toml_root(rh): ""})
+    _, _, var = _alias_paths(rh, {_toml_root(rh): ""}, derive=True)
     inst = {}
     for n in ast.walk(rh):
         if isinstance(n, ast.Assign) and ast.unparse(n.targets[0]) == "Species._replacement" and isinstance(n.value, ast.Name):
